@@ -361,14 +361,19 @@ namespace cds { namespace gc {
             void extend()
             {
                 assert( list_head_ != nullptr );
-                assert( current_block_ == list_tail_ );
-                assert( current_cell_ == current_block_->last());
 
                 retired_block* block = retired_allocator::instance().alloc();
                 assert( block->next_ == nullptr );
 
-                current_block_ = list_tail_ = list_tail_->next_ = block;
-                current_cell_ = block->first();
+                // the write position moves to the new block only if it stands at the end of the chain: a pass that freed
+                // some entries has compacted the chain and left the position inside an earlier block (push() steps
+                // into the new block when that block is full)
+                bool const at_end = current_block_ == list_tail_ && current_cell_ == current_block_->last();
+                list_tail_ = list_tail_->next_ = block;
+                if ( at_end ) {
+                    current_block_ = block;
+                    current_cell_ = block->first();
+                }
                 ++block_count_;
                 CDS_HPSTAT( ++extend_call_count_ );
             }
